@@ -163,3 +163,53 @@ fn read_io_floating() {
         "C07: unclaimed port returns the display/attribute byte the ULA is fetching");
     kani::cover!(r != 0xFF);
 }
+
+/// C10 (trap condition): the fast-load request is raised exactly when execution reaches LD-BREAK
+/// (0x056B) with the 48K BASIC ROM paged in (48K: the ROM; 128K: ROM 1), for every address,
+/// machine and paging state.
+#[kani::proof]
+#[kani::unwind(17)]
+#[kani::stub(libm::sqrt, sqrt_stub)]
+fn pc_callback_trap() {
+    let machine = any_machine();
+    let mut c = ZXController::<VHost>::new(&settings(machine, false, false, false), VContext);
+    let latch: u8 = kani::any();
+    c.write_7ffd(latch); // ignored on the 48K
+    let addr: u16 = kani::any();
+    kani::assert(c.verif_events_bits() == 0, "no event pending initially");
+    c.pc_callback(addr);
+    let basic_rom = machine == ZXMachine::Sinclair48K || latch & 0x10 != 0;
+    let expect = addr == 0x056B && basic_rom;
+    kani::assert((c.verif_events_bits() & 1 != 0) == expect,
+        "C10: fast-load trap raised iff PC = 0x056B and the 48K BASIC ROM is paged in");
+    kani::assert(c.verif_events_bits() & !1 == 0, "C10: no other event without a debug interface");
+    kani::cover!(expect);
+}
+
+/// C06 (ROM contents): with the embedded ROM set 0x0000-0x3FFF reads the ROM image of the machine
+/// (128K: the image selected by bit 4 of the paging latch) and ignores writes.
+#[kani::proof]
+#[kani::unwind(17)]
+#[kani::stub(libm::sqrt, sqrt_stub)]
+#[kani::stub(crate::zx::sound::mixer::ZXMixer::process, mixer_process_stub)]
+#[kani::stub(crate::zx::video::screen::ZXScreen::process_clocks, screen_process_clocks_stub)]
+fn rom_window() {
+    let machine = any_machine();
+    let mut c = ZXController::<VHost>::new(&settings(machine, false, false, true), VContext);
+    let latch: u8 = kani::any();
+    c.write_7ffd(latch);
+    let addr: u16 = kani::any();
+    kani::assume(addr < 0x4000);
+    let image: &[u8; 16 * 1024] = match machine {
+        ZXMachine::Sinclair48K => crate::zx::roms::ROM_48K,
+        ZXMachine::Sinclair128K => {
+            if latch & 0x10 != 0 { crate::zx::roms::ROM_128K_1 } else { crate::zx::roms::ROM_128K_0 }
+        }
+    };
+    let before = c.read_internal(addr);
+    kani::assert(before == image[addr as usize], "C06: ROM window reads the ROM image selected for the machine");
+    let v: u8 = kani::any();
+    c.write_internal(addr, v);
+    kani::assert(c.read_internal(addr) == before, "C06: ROM window ignores writes");
+    kani::cover!(machine == ZXMachine::Sinclair128K && latch & 0x10 != 0);
+}
